@@ -19,4 +19,21 @@ let attrs_cmd cmd tk = match cmd with
       let at = next_optlist tk in let tr = next_optlist tk in let nt = next_optlist tk in let pe = next_optlist tk in let np = next_optlist tk in
       let d = { d_attrs = at; d_trigger = tr; d_nontrigger = nt; d_persistent = pe; d_nonpersistent = np; d_any_inputs = any } in
       Some (str_pres (fun (((mi, ei), mo), eo) -> String.concat " " (List.map str_set [mi; ei; mo; eo])) (parse_attrs d ty))
+  | "X_START" -> let v = next_list next_nat tk in let ex = next_opt (next_list next_nat) tk in let ip = next_bool tk in let co = next_bool tk in
+      Some (match start { version = v; explicit = ex; inproc = ip; compliant = co } with
+        | Started (a, b, c) -> Printf.sprintf "started %s %s %s" (str_bool a) (str_bool b) (str_bool c)
+        | RejectedNotCompliant -> "rejected notcompliant" | RejectedTooNew -> "rejected toonew" | RejectedMismatch -> "rejected mismatch")
+  | "X_DELIVER" -> let b = next_bool tk in let c = next_bool tk in let k = next tk in
+      let r = (match k with "setup_done" -> RSetupDone | "step" -> RStep (next_nat tk) | _ -> ROther (next_nat tk)) in
+      Some (match deliver b c r with None -> "dropped" | Some RSetupDone -> "setup_done" | Some (RStep n) -> Printf.sprintf "step %d" (int_of_nat n) | Some (ROther k) -> Printf.sprintf "other %d" (int_of_nat k))
+  | "X_TYPE" -> let c = next_bool tk in let g = next_opt next_nat tk in
+      Some (match meta_type c g with None -> "absent" | Some t -> string_of_int (int_of_nat t))
+  | "U_EVENLY" -> let src = next_list next_nat tk in let dsize = next_nat tk in let perms = next_list (next_list next_nat) tk in
+      Some (match connect_evenly (nat_of_int 1000) perms src dsize with
+        | None -> "oracle"
+        | Some r -> "ok " ^ String.concat " " (List.map (fun (a, b) -> Printf.sprintf "%d:%d" (int_of_nat a) (int_of_nat b)) r))
+  | "U_RANDOM" -> let src = next_list next_nat tk in let dest = next_list next_nat tk in let maxc = next_opt next_nat tk in let ch = next_list next_nat tk in
+      Some (match connect_randomly_uneven ch src dest maxc with
+        | ROk r -> "ok " ^ String.concat " " (List.map (fun (a, b) -> Printf.sprintf "%d:%d" (int_of_nat a) (int_of_nat b)) r)
+        | RPrecondition -> "precondition" | RAssert -> "assert" | ROracle -> "oracle")
   | _ -> None
